@@ -12,7 +12,11 @@ META = {
             "programs run under the Go race detector for GOMAXPROCS 1,2,4,16 with yield injection). Tie: a verif-tagged, "
             "add-only trace hook (fixes/C08-hook.patch) emits (goroutine, table, read/write, shared flag) for every "
             "symbols.Get/Set/Create/Delete and the fork-time state of the captured chain; every observed trace is "
-            "validated by the Lean trace checker (egodriver C08) and by an independent Go checker; the generator "
+            "validated by the Lean trace checker (egodriver C08) and by an independent Go checker; the fork-time state is "
+            "read along the RAW parent chain (what the boundary-ignoring walks GetAnyScope/InPackage follow), and programs "
+            "run in both scope modes (ego.runtime.deep.scope, true by default in the CLI: a helper function's captured "
+            "chain then runs through its callers' private blocks; C08_mark_subchain_counterexample shows that marking "
+            "less than that chain breaks the invariant); the generator "
             "predicts the one output a fully synchronised program may print.",
     "note": "trusted: Lean kernel; Go race detector; sync.RWMutex; the harness (zz_verif_c08*_test.go) and the hook "
             "placement. Modelled, not verified: proxy/package tables (always shared), SerializeTableAccess=false, "
@@ -150,7 +154,15 @@ def _classify(block, prog):
         return "race-goroutine-prologue-reads-launcher-scope"
     if any("requiredTypeByteCodeImpl" in f for st in names for f in st[:1]):
         return "race-pointer-arg-typecheck"
-    return "data-race"
+    # any other race is named by its two racing interpreter frames (the first frame of each stack outside the Go
+    # runtime), e.g. data-race:symbols.Create-vs-symbols.GetAnyScope = a boundary-ignoring walk reading the map of an
+    # ancestor table that was left unshared while its owner declares a variable in it
+    tops = set()
+    for st in names:
+        f = next((f for f in st if not f.startswith(("runtime.", "sync.", "internal/"))), None)
+        if f:
+            tops.add(re.sub(r"\(\*?\w+\)\.", "", re.sub(r"\.func\d+(\.\d+)*$", "", f)))
+    return "data-race:" + "-vs-".join(sorted(tops)) if tops else "data-race"
 
 
 def _race_pass(ctx, tree, label, env):
@@ -198,7 +210,8 @@ def run(ctx):
                         "package/proxy tables are always shared (NewChildProxy) and are not part of the model",
                         "trace rule: an access made without the lock must not conflict with an access of a goroutine alive at that moment"]
     ctx.lean_audit(required=["C08_shared_before_fork_partial", "C08_shared_before_fork_counterexample",
-                             "C08_race_free", "C08_lock_iff_shared", "C08_sync_deterministic"])
+                             "C08_race_free", "C08_lock_iff_shared", "C08_sync_deterministic",
+                             "C08_mark_subchain_breaks_inv", "C08_mark_subchain_counterexample"])
     if not ctx.quick:
         ctx.leanchecker()
     ctx.prepare_tree()
@@ -267,8 +280,12 @@ def run(ctx):
         "traces_checked_by_lean": len(cases),
         "distinct_nontrivial": c.get("distinct_nontrivial", 0),
         "rule": "programs = compositions of 1..6 units (named workers, mutex closures, BUG-94 block captures, nested "
-                "goroutines, pipelines, launcher functions that return before their goroutines finish, pointer arguments, "
-                "globals, escaping closures); non-trivial = distinct unit composition with >= 2 goroutines; each program runs "
+                "goroutines, pipelines, launcher functions that return before their goroutines finish, helper functions 1..3 "
+                "calls below main that launch workers, wait for a ready handshake and return while the workers keep calling "
+                "Ego functions and main declares variables in its blocks, pointer arguments, globals, escaping closures), "
+                "each with a scope mode (ego.runtime.deep.scope true = the CLI/server default, or false; one larger helper "
+                "program runs under the race detector only); non-trivial = "
+                "distinct unit composition with >= 2 goroutines; each program runs "
                 "under GOMAXPROCS 1,2,4,16 with hash-chosen runtime.Gosched in the dispatch loop",
         "samples": stats.get("samples", []), "counters": c, "hooked": hooked, "race_detector": have_race,
         "notes": ctx.notes,
